@@ -439,6 +439,8 @@ func (s *kvGenState) history(maxOps int) {
 			s.op("reopen", "reopen")
 		case x == 97 && r.Intn(6) == 0:
 			s.op("probe", "probe")
+		case x == 97 && r.Intn(3) == 0:
+			s.op("raw", "raw")
 		case x >= 98 && !s.rOpen && !s.wOpen:
 			s.op("begin-read", "begin %s", pick(r, "r", "v"))
 			s.rOpen = true
@@ -456,6 +458,7 @@ func (s *kvGenState) history(maxOps int) {
 	if r.Intn(2) == 0 {
 		s.op("reopen", "reopen")
 	}
+	s.op("raw", "raw")
 	s.op("begin-read", "begin r")
 	s.op("names-r", "names r /")
 	ks := sortedKeys(s.committed)
